@@ -15,6 +15,7 @@ package gov
 import (
 	"fmt"
 	"math/big"
+	"os"
 	"strings"
 
 	"github.com/ontio/ontology/common"
@@ -55,9 +56,12 @@ type hist struct {
 	deposited, withdrawn map[common.Address]uint64
 	goneQuit, goneBlack  map[string]bool // peers removed from the pool by normalQuit / blackQuit
 	quitOrBlack          bool
+	warm                 bool // during the warm-up epochs (judged, but not counted as generated epochs)
 	nt10, nt11           bool
 	counts               map[string]int
 }
+
+var debugFailedValid = os.Getenv("GOV_DEBUG") != ""
 
 func (h *hist) class(c string) { h.ev.Class(c); h.counts[c]++ }
 
@@ -122,6 +126,9 @@ func (h *hist) exec(a *action) bool {
 		h.trace = append(h.trace, fmt.Sprintf("[h%d] %s -> failed (…%s)", h.n.Height, a.desc, e))
 	}
 
+	if !ok && a.valid && debugFailedValid {
+		fmt.Println("valid-by-construction action failed:", h.trace[len(h.trace)-1])
+	}
 	if !ok {
 		// Native.Call reset the transaction cache: the observable state is the one before the call.
 		if h.prop == "C10" && a.feeOf != nil && pre.split[*a.feeOf] > 0 && hasAddr(a.signers, *a.feeOf) {
@@ -139,10 +146,11 @@ func (h *hist) exec(a *action) bool {
 	if epoch {
 		for _, pub := range pre.poolKeys {
 			if _, still := post.pool[pub]; !still {
-				switch pre.pool[pub].status {
-				case stQuiting:
+				// an epoch change removes exactly the quitting peers (normalQuit) and the black-listed ones
+				// (blackQuit; a consensus node black-listed by this very call was not yet marked before it)
+				if pre.pool[pub].status == stQuiting {
 					h.goneQuit[pub] = true
-				case stBlack:
+				} else {
 					h.goneBlack[pub] = true
 				}
 			}
@@ -156,11 +164,14 @@ func (h *hist) exec(a *action) bool {
 	case "C11":
 		h.judgeC11(a, pre, post)
 	case "C10":
+		// dapp transfer of an epoch change = ONG received by the gas address during the call (an epoch change
+		// moves no other ONG to or from an account; outside epoch changes the gas address may be a participant
+		// paying or receiving ONG of its own)
 		var gasDelta uint64
-		if gasTracked {
+		if gasTracked && epoch {
 			gasPost := h.bal(nutils.OngContractAddress, pre.gas)
 			if gasPost < gasPre {
-				h.fail("harness: ONG of gas address decreased during %s", a.desc)
+				h.fail("harness: ONG of gas address %s decreased during the epoch change %s", h.w.name(pre.gas), a.desc)
 			}
 			gasDelta = gasPost - gasPre
 		}
@@ -252,12 +263,21 @@ func (h *hist) judgeC10(a *action, pre, post *snap, epoch bool, gasDelta, credPr
 	if !epoch {
 		return
 	}
-	h.class("epoch")
+	if h.warm {
+		h.class("epoch(warm-up)")
+		if pre.view <= 6 {
+			return
+		}
+	} else {
+		h.class("epoch")
+	}
 	if pre.view <= 6 {
 		h.class("epoch:split1")
 		return
 	}
-	h.class("epoch:split2")
+	if !h.warm {
+		h.class("epoch:split2")
+	}
 	// income as the contract saw it: balance after unbinding, minus what was already owed
 	income := new(big.Int).SetUint64(post.ongGov)
 	income.Add(income, new(big.Int).SetUint64(gasDelta))
@@ -291,7 +311,15 @@ func (h *hist) judgeC10(a *action, pre, post *snap, epoch bool, gasDelta, credPr
 		h.fail("%s: credits + dapp transfer = %s exceed the income %s being split (ONG(gov) after=%d, dapp=%d, splitFee before=%d)",
 			a.desc, sum, income, post.ongGov, gasDelta, pre.splitFee)
 	}
+	// observation only (not part of C10's statement, never judged): the contract's own splitFee record should
+	// equal the sum of the credits; a drift means income that is neither credited nor splittable any more
+	if post.splitFee != post.sumSplit {
+		h.class("observe:splitFeeRecord!=sumOfCredits")
+	}
 	// coverage of the interesting split situations
+	if h.warm {
+		return
+	}
 	if income.Sign() > 0 {
 		h.class("epoch:split2:income>0")
 	}
